@@ -66,7 +66,8 @@ def run(ctx):
         for x in walk_local(f.node):
             if isinstance(x, ast.Call) and isinstance(x.func, ast.Attribute) and x.func.attr == "_invalidate_cache":
                 callers.append(f)
-    allowed = {"dateutil.rrule.rrulebase.__init__", "dateutil.rrule._invalidates_cache.inner_func"}
+    deco = prog.func("rrule._invalidates_cache", "C11.EXEMPT")
+    allowed = {"dateutil.rrule.rrulebase.__init__"} | set(deco.qualname + "." + x.name for x in deco.node.body if isinstance(x, ast.FunctionDef))
     ctx.floor("C11.EXEMPT", len(callers), 1, "callers of _invalidate_cache")
     for f in callers:
         ctx.ob("C11.EXEMPT", f, "_invalidate_cache (exempt from C11.SHARED) is called only from construction "
